@@ -1703,3 +1703,85 @@ def borrowed_into_owning_list(prog, fn, stats=None):
             continue
         out.append((b, i, dst, sorted(set(srcs)), v["n"]))
     return out
+
+
+# ------------------------------------------------------------------------ whole-struct copy of an object with owning fields
+def struct_copies_sharing_owned_fields(prog, fn, stats=None):
+    """`*dst = *src` / `dst = *src` copies every pointer of the object.  For each pointer field that some function of the program releases
+    through an object of this record type, the copy must give `dst` a value of its own on every path to the function's exit - a plain
+    assignment `dst->f = ...`; an out-argument of a call does not count (a failing callee leaves the copied pointer in place) - otherwise
+    two objects release the same pointee.  [(block, idx, record, field, dst)]"""
+    out = []
+
+    def rec_of(t):
+        t = (t or "").replace("const ", "").replace("struct ", "").strip()
+        if t.endswith("*"):
+            t = t[:-1].strip()
+        if "*" in t:
+            return None
+        for cand in (t, t + "_st"):
+            if cand in prog.records:
+                return cand
+        return None
+    for b, i, n in fn.nodes():
+        if n.get("k") != "asg" or n.get("op") != "=":
+            continue
+        l, r = strip(n["l"]), strip(n["r"])
+        if not (isinstance(l, dict) and isinstance(r, dict)):
+            continue
+        rec = None
+        if l.get("k") == "un" and l.get("op") == "*" and isinstance(strip(l["e"]), dict):
+            rec = rec_of(strip(l["e"]).get("t"))
+            dst = lvalue_key(strip(l["e"]), fn)
+            arrow = True
+        elif l.get("k") == "var" and rec_of(l.get("t")) and "*" not in (l.get("t") or ""):
+            rec = rec_of(l.get("t"))
+            dst = l["n"]
+            arrow = False
+        if not rec or dst is None:
+            continue
+        if not (r.get("k") == "un" and r.get("op") == "*" or (r.get("k") in ("var", "mem") and rec_of(r.get("t")) == rec and "*" not in (r.get("t") or ""))):
+            continue
+        if stats is not None:
+            stats["copies"] = stats.get("copies", 0) + 1
+        owned = _released_fields(prog, rec)
+        for f in sorted(owned):
+            want = "%s%s%s" % (dst, "->" if arrow else ".", f)
+            sites = [(b2, i2) for b2, i2, m in fn.nodes() if m.get("k") == "asg" and (lvalue_key(m["l"], fn) or "") == want]
+            if any(b2 == b and i2 > i for b2, i2 in sites):
+                continue                       # given a value of its own right after the copy
+            stores = {b2 for b2, i2 in sites if b2 != b}
+            seen, work, escaped = set(), [e.dst for e in fn.succ[b]], not fn.succ[b]
+            while work and not escaped:
+                cur = work.pop()
+                if cur in seen or cur in stores:
+                    continue
+                seen.add(cur)
+                if not fn.succ[cur]:
+                    escaped = True
+                    break
+                work.extend(e.dst for e in fn.succ[cur])
+            if escaped:
+                out.append((b, i, rec, f, dst))
+    return out
+
+
+_released = {}
+
+
+def _released_fields(prog, rec):
+    """Pointer fields of record `rec` that some function releases through a pointer to such a record (p->f handed to a release function)."""
+    key = (id(prog), rec)
+    if key in _released:
+        return _released[key]
+    ptr_fields = {f["n"] for f in prog.records[rec]["fields"] if "*" in (f.get("t") or "") and "(*" not in (f.get("t") or "")}
+    got = set()
+    for g in prog.all_functions():
+        for b, i, c in g.calls():
+            if not is_release(c.get("fn")) or not c["a"]:
+                continue
+            a = strip(c["a"][0])
+            if isinstance(a, dict) and a.get("k") == "mem" and a.get("r") == rec and a["f"] in ptr_fields:
+                got.add(a["f"])
+    _released[key] = got
+    return got
